@@ -6,16 +6,22 @@
 From Model Require Import Base Uni Utf8 Notation Dispatch.
 From Proofs Require Import DispatchP.
 
-(* what "bound to" means for matchBind: its exact match is the bind of a table
-   entry whose (meta-converted) sequence is exactly the keys; its prefix flag is set
-   iff the keys are a proper prefix of some entry's sequence *)
+(* what "bound to" means for matchBind: its exact match is the bind of a table entry
+   whose (meta-converted) sequence is exactly the keys - or, where the table scan finds
+   no command for them and the keymap is one where characters insert themselves
+   (it binds a to self-insert), self-insert for the complete UTF-8 encoding of one
+   character; its prefix flag is set iff the keys are a proper prefix of some entry's
+   sequence, or the incomplete encoding of a character in such a keymap *)
 Theorem C03_matchbind_exact : forall t keys,
   (fst (match_bind t keys) = no_bind /\ forall e, In e t -> entry_exact keys e = false) \/
-  (exists e, In e t /\ entry_exact keys e = true /\ fst (match_bind t keys) = snd e).
+  (exists e, In e t /\ entry_exact keys e = true /\ fst (match_bind t keys) = snd e) \/
+  (fst (match_bind t keys) = self_insert_bind /\ is_bound (fst (match_table t keys)) = false /\
+   uni_keys t keys = true /\ utf8_char keys = true).
 Proof. exact match_bind_exact. Qed.
 
 Theorem C03_matchbind_prefix : forall t keys,
-  snd (match_bind t keys) = true <-> exists e, In e t /\ entry_ext keys e = true.
+  snd (match_bind t keys) = true <->
+  (exists e, In e t /\ entry_ext keys e = true) \/ (uni_keys t keys = true /\ full_rune keys = false).
 Proof. exact match_bind_ext. Qed.
 
 Theorem C03_dispatch_is_token_scan : forall f t e k prefix read matched,
